@@ -645,6 +645,20 @@ func (cmd *Command) printDiagnostics(cs []*lint.Analyzer, diagnostics []diagnost
 			if di.Message != dj.Message {
 				return di.Message < dj.Message
 			}
+			// Order by the rest of the descriptor before the build name, so that
+			// diagnostics that differ only in their build name end up adjacent.
+			if di.Category != dj.Category {
+				return di.Category < dj.Category
+			}
+			if di.End.Filename != dj.End.Filename {
+				return di.End.Filename < dj.End.Filename
+			}
+			if di.End.Line != dj.End.Line {
+				return di.End.Line < dj.End.Line
+			}
+			if di.End.Column != dj.End.Column {
+				return di.End.Column < dj.End.Column
+			}
 			if di.BuildName != dj.BuildName {
 				return di.BuildName < dj.BuildName
 			}
